@@ -2,6 +2,8 @@
 base class objects; the markets are small in-memory subclasses of demeter.broker.Market)."""
 from __future__ import annotations
 
+import contextlib
+import io
 import json
 import traceback
 
@@ -12,19 +14,30 @@ import core_lib as cl
 import c18 as trig
 
 PROPERTY = "C05"
-LEAN_MODULES = ["Proofs.C05", "Proofs.C05.Refresh"]
+LEAN_MODULES = ["Proofs.C05", "Proofs.C05.Refresh", "Proofs.C05.Hooks"]
 DRIVERS = ["driver_core"]
 RULE = ("random runs: 1..3 markets (minutely, hourly, hourly option book with 2..80 rows per timestamp — sometimes more rows than the longest market has "
         "minutes —, with gaps, starting late / ending early), bar interval 1/2/3/5/7/15/45/60 min (string forms "
         "'1min', 'min', '5min', '1h', 'h'), 1..400 bars, price frame covering / not covering the data, 0..3 time triggers, scripted strategy "
-        "issuing accepted and refused operations from initialize / before_bar / trigger actions / open callbacks / on_bar / after_bar and from "
-        "inside notify() (answers to delivered actions, up to three levels deep, also on the last bar) and markets whose update() records actions; "
-        "fixed cases: minutely market + 2 h x 80-row book, 2-3 markets with a write only on a later-registered one, answers from notify(); bucket = (interval class, market mix, bars class, phases with operations, second refresh seen, "
-        "closed-market rejection seen, outcome)")
+        "whose hooks (initialize / before_bar / trigger actions / open callbacks / on_bar / after_bar / notify) run statement lists: accepted and "
+        "refused operations (from inside notify() too: answers to delivered actions, up to three levels deep, also on the last bar), "
+        "strategy.triggers.append of a new trigger / remove of an installed one (from trigger actions while the loop iterates the list, and "
+        "between loops), raise of HookError / HookRuntimeError / DemeterError at a random place of a random hook on a random bar (first, last, "
+        "middle), and markets whose update() records actions; after a run (failed or not) the same Actuator and strategy object run again; "
+        "fixed cases: minutely market + 2 h x 80-row book, 2-3 markets with a write only on a later-registered one, answers from notify(), a raise "
+        "in each of the seven hooks x bar {0, 2, 3, 5} x class, self-removing / installing / earlier-removing trigger actions; a run that a hook "
+        "ended is judged against a fresh run of the same strategy without the raise (calls, account history, actions: prefixes; second run: equal); "
+        "bucket = (interval class, market mix, bars class, phases with operations, second refresh seen, closed-market rejection seen, outcome, "
+        "hook that raised, list changes, second run)")
 TRUSTED = ["pandas resample/loc internals are exercised, not modelled: the model's resampled index and 'first row of the bin' rule are compared with what pandas produced on every run",
-           "the concrete markets' own set_market_status/update bodies are the subject of other properties; here they are abstract (ProbeMarket in harness/core_lib.py)"]
-ASSUMPTIONS = ["hooks do not raise (the scripted strategy catches the exception of a refused operation) and do not replace strategy.triggers",
-               "a notify() hook that answers every delivery with a new accepted operation never returns (the code iterates the live list): generated scripts answer at most three levels deep",
+           "the concrete markets' own set_market_status/update bodies are the subject of other properties; here they are abstract (ProbeMarket in harness/core_lib.py)",
+           "what the `except RuntimeError` handler of the bar loop does besides re-raising (print, _generate_account_status_df, save_result into the working "
+           "directory) is observed, not modelled, except for its one visible effect on the outcome: IndexError when no account row exists yet"]
+ASSUMPTIONS = ["a scripted hook catches the refusal of its own operations; what it does not catch is a scripted raise (any statement position, three exception classes)",
+               "hooks change strategy.triggers in place with append (a new object) / remove (an installed object); list.insert and rebinding the attribute while "
+               "the trigger loop runs are not modelled",
+               "a notify() hook that answers every delivery with a new accepted operation, or trigger actions that keep installing triggers that fire at once, "
+               "never return (the code iterates the live lists): generated scripts answer at most three levels deep",
                "frames have a non-decreasing time index (several rows per timestamp allowed: an option book)"]
 
 INTERVALS = ((1, "1min"), (1, "1min"), (1, "min"), (5, "5min"), (5, "5min"), (15, "15min"), (60, "1h"), (60, "h"), (60, "60min"),
@@ -147,7 +160,142 @@ def gen_case(rng, big=False):
                 cnt[0] += 1
                 sc["upd"].append([r_, m, [f"u{cnt[0]}"] + ([f"u{cnt[0]}b"] if rng.random() < 0.3 else [])])
                 answers(r_, sc["upd"][-1][2])
-    return {"interval": interval, "istr": istr, "markets": markets, "prices": prices, "specs": specs, "script": sc, "rerun": rng.random() < 0.35}
+    case = {"interval": interval, "istr": istr, "markets": markets, "prices": prices, "specs": specs, "script": sc, "rerun": rng.random() < 0.35}
+    nbars_run = len(expected_index(max(markets, key=lambda m: len(m["times"]))["times"], step, resampled(istr)))
+    if rng.random() < 0.3:
+        add_trigger_changes(rng, case, nbars_run, lo - lo % step, hi - hi % step, step)
+    if rng.random() < 0.35:
+        add_boom(rng, case, nbars_run)
+        case["rerun"] = rng.random() < 0.7
+    return case
+
+
+def body_of(sc, key, r_, i=None):
+    """the statement list of a hook on a bar (created if the script has none yet)"""
+    if key == "init":
+        return sc["init"]
+    for e in sc[key]:
+        if e[0] == r_ and (i is None or e[1] == i):
+            return e[-1]
+    e = [r_, []] if i is None else [r_, i, []]
+    sc[key].append(e)
+    return e[-1]
+
+
+def add_trigger_changes(rng, case, nbars, lo, hi, step):
+    """hooks that change strategy.triggers during the run: a trigger's own action removes it (one-shot), removes another one (installed before or
+    behind it), installs a new trigger (which is evaluated later in the same loop and may itself install / remove); before_bar / on_bar /
+    after_bar / notify install and remove triggers between two loops"""
+    sc = case["script"]
+    n0 = sum(1 for sp in case["specs"] if trig.should_construct(sp))
+    ids = list(range(n0))
+    nxt = [n0]
+
+    def new_spec():
+        for _ in range(50):
+            sp = trig.gen_spec(rng, lo, hi, step)
+            if trig.should_construct(sp) and trig.static_error(sp) is None and sp["k"] != "base":
+                if rng.random() < 0.5:       # something that is due soon: every bar, or a range over the whole run
+                    sp = rng.choice(({"k": "period", "kw": "{}", "d": step, "imm": True, "pend": 0},
+                                     {"k": "range", "kw": "{}", "s": lo, "e": hi + step},
+                                     {"k": "periods", "kw": "{}", "ds": [step, 2 * step], "imm": rng.random() < 0.5, "pend": 0}))
+                sp = dict(sp, id=nxt[0])
+                nxt[0] += 1
+                ids.append(sp["id"])
+                return sp
+        return None
+    rows = sorted(rng.sample(range(nbars), min(nbars, rng.randint(1, 6))))
+    for r_ in rows:
+        for _ in range(rng.choice((1, 1, 2, 3))):
+            where = rng.choice(("fire", "fire", "fire", "before", "on", "after", "notify"))
+            if where == "fire":
+                if not ids:
+                    continue
+                body = body_of(sc, "fire", r_, rng.choice(ids))
+            elif where == "notify":
+                tags = [st[2] for key in ("before", "on", "after") for rr, o in sc[key] if rr == r_ for st in o if len(st) == 4 and isinstance(st[0], int)]
+                if not tags:
+                    continue
+                tag = rng.choice(tags)
+                ent = next((e for e in sc["notify"] if e[0] == r_ and e[1] == tag), None)
+                if ent is None:
+                    ent = [r_, tag, []]
+                    sc["notify"].append(ent)
+                body = ent[2]
+            else:
+                body = body_of(sc, where, r_)
+            k = rng.random()
+            if k < 0.45 or not ids:
+                sp = new_spec()
+                if sp is None:
+                    continue
+                st = ["tadd", sp]
+                # what the new trigger's own action does when it fires on this bar or a later one
+                for rr in rng.sample(range(r_, nbars), min(nbars - r_, rng.randint(0, 3))):
+                    b2 = body_of(sc, "fire", rr, sp["id"])
+                    q = rng.random()
+                    if q < 0.3:
+                        b2.append(["tdel", sp["id"]])                       # one-shot: removes itself
+                    elif q < 0.5 and ids:
+                        b2.append(["tdel", rng.choice(ids)])
+                    elif q < 0.7:
+                        b2.append([rng.randrange(len(case["markets"])), True, f"d{sp['id']}r{rr}", rng.random() < 0.7])
+            else:
+                st = ["tdel", rng.choice(ids)]
+            body.insert(rng.randint(0, len(body)), st)
+    # every trigger gets a chance to be seen firing around the changed ones
+    sc["tfuel"] = 1000
+
+
+def add_boom(rng, case, nbars):
+    """one hook raises at one place: class, hook, bar and position inside the hook's body drawn at random (a hook that is not called on that bar —
+    a trigger that is not due, a closed market's open callback, an action that is never delivered — leaves the run as it is)"""
+    sc = case["script"]
+    cls = rng.choice(("HookError", "HookError", "HookRuntimeError", "DemeterError"))
+    r_ = rng.choice((0, 0, nbars - 1, rng.randrange(nbars), rng.randrange(nbars), rng.randrange(nbars)))
+    where = rng.choice(("before", "on", "after", "before", "on", "after", "fire", "fire", "open", "notify", "notify", "init"))
+    if where == "init":
+        body = sc["init"]
+    elif where == "fire":
+        # the bodies of actions that exist already; a range / period trigger of the case is called on (nearly) every bar
+        cands = [e for e in sc["fire"]] or None
+        often = [i for i, sp in enumerate(s_ for s_ in case["specs"] if trig.should_construct(s_)) if sp["k"] in ("range", "ranges", "period", "periods")]
+        if often and rng.random() < 0.6:
+            cands = [[r_, i, body_of(sc, "fire", r_, i)] for i in often]
+        if cands is None:
+            n0 = sum(1 for sp in case["specs"] if trig.should_construct(sp))
+            if not n0:
+                where, body = "on", body_of(sc, "on", r_)
+            else:
+                body = body_of(sc, "fire", r_, rng.randrange(n0))
+        else:
+            body = rng.choice(cands)[2]
+    elif where == "open":
+        ms = [i for i, m in enumerate(case["markets"]) if m["open"]]
+        if not ms:
+            where, body = "after", body_of(sc, "after", r_)
+        else:
+            body = body_of(sc, "open", r_, rng.choice(ms))
+    elif where == "notify":
+        if sc["notify"] and rng.random() < 0.5:
+            body = rng.choice(sc["notify"])[2]
+        else:
+            # answer the delivery of some recorded action with a raise
+            tags = [(rr, st[2]) for key in ("before", "on", "after") for rr, o in sc[key] for st in o if len(st) == 4 and isinstance(st[0], int) and st[1]]
+            tags += [(rr, t) for rr, _, ts_ in sc["upd"] for t in ts_]
+            if not tags:
+                b = body_of(sc, "on", r_)
+                b.append([0, True, f"b{r_}", False])
+                tags = [(r_, f"b{r_}")]
+            rr, tag = rng.choice(tags)
+            ent = next((e for e in sc["notify"] if e[0] == rr and e[1] == tag), None)
+            if ent is None:
+                ent = [rr, tag, []]
+                sc["notify"].append(ent)
+            body = ent[2]
+    else:
+        body = body_of(sc, where, r_)
+    body.insert(rng.randint(0, len(body)), ["boom", cls])
 
 
 # ------------------------------------------------------------------------------------------ implementation run
@@ -159,20 +307,50 @@ def run_impl(case):
     rec.initialized = False
     a, ms, rec = cl.build([(f"m{i}", m["times"], m["open"], m["kind"], m.get("rows", 1), m.get("sparse", False)) for i, m in enumerate(case["markets"])], case["prices"], case["istr"], rec)
     sc = case["script"]
-    t_before = {r: o for r, o in sc["before"]}
-    t_on = {r: o for r, o in sc["on"]}
-    t_after = {r: o for r, o in sc["after"]}
-    t_fire = {(r, i): o for r, i, o in sc["fire"]}
-    t_open = {(r, m): o for r, m, o in sc["open"]}
-    t_notify = {(r, tag): o for r, tag, o in sc.get("notify", [])}
+    t_before, t_on, t_after, t_fire, t_open, t_notify, upd_by_row = {}, {}, {}, {}, {}, {}, {}
+    cur_sc = {"sc": sc}
+
+    def load(script):
+        """(re)fill the tables the hooks read: the same strategy object can be run again with another script"""
+        cur_sc["sc"] = script
+        for d in (t_before, t_on, t_after, t_fire, t_open, t_notify, upd_by_row):
+            d.clear()
+        t_before.update({r: o for r, o in script["before"]})
+        t_on.update({r: o for r, o in script["on"]})
+        t_after.update({r: o for r, o in script["after"]})
+        t_fire.update({(r, i): o for r, i, o in script["fire"]})
+        t_open.update({(r, m): o for r, m, o in script["open"]})
+        t_notify.update({(r, tag): o for r, tag, o in script.get("notify", [])})
+        # update() scripts are keyed by row; ProbeMarket keys them by time: filled lazily from before_bar
+        for r, m, tags in script["upd"]:
+            upd_by_row.setdefault(r, []).append((m, tags))
+        for m in ms:
+            m.update_script = {}
+    load(sc)
     ev = rec.ev
     state = {"row": 0}
 
     def now():
         return cl.sec(a._currents.timestamp)
 
+    dyn = {}                 # id -> trigger object installed by a hook during the run (a new object every time the statement runs)
+
     def do_ops(hook, ops):
-        for m, ok, tag, gated in ops:
+        for st in ops:
+            if st[0] == "boom":
+                raise cl.hook_exception(st[1])
+            if st[0] == "tadd":
+                sp = st[1]
+                dyn[sp["id"]] = t = trig.construct(sp, mk_do(sp["id"]))
+                ident[id(t)] = sp["id"]
+                a.strategy.triggers.append(t)
+                continue
+            if st[0] == "tdel":
+                t = trigs[st[1]] if st[1] < len(trigs) else dyn.get(st[1])
+                if t is not None and t in a.strategy.triggers:
+                    a.strategy.triggers.remove(t)
+                continue
+            m, ok, tag, gated = st
             if not gated:
                 try:
                     ms[m].free_op(tag, ok)
@@ -188,12 +366,7 @@ def run_impl(case):
             except Exception:  # noqa: BLE001   (the market's own refusal)
                 ev(["rej", now(), hook, m, tag, False])
 
-    # update() scripts are keyed by row; ProbeMarket keys them by time: fill lazily from before_bar
-    upd_by_row = {}
-    for r, m, tags in sc["upd"]:
-        upd_by_row.setdefault(r, []).append((m, tags))
-
-    made, trigs = [], []
+    made, trigs, ident = [], [], {}
 
     def mk_do(i):
         def do(snapshot, **kw):
@@ -206,7 +379,7 @@ def run_impl(case):
             made.append(None)
         except DemeterError:
             made.append("DemeterError")
-    ident = {id(t): i for i, t in enumerate(trigs)}
+    ident.update({id(t): i for i, t in enumerate(trigs)})
 
     def on_open(mid, snap):
         ev(["open", cl.sec(snap.timestamp), mid])
@@ -221,7 +394,7 @@ def run_impl(case):
             rec.initialized = True
             ev(["initialize", now()])
             self.triggers.extend(trigs)
-            do_ops("init", sc["init"])
+            do_ops("init", cur_sc["sc"]["init"])
 
         def before_bar(self, snap):
             for m, tags in upd_by_row.get(snap.row_id, []):
@@ -255,38 +428,89 @@ def run_impl(case):
             ev(["row", cl.sec(timestamp), cl.price_src(prices["USDC"])])
         return inner_status(prices, timestamp)
     a.broker.get_account_status = status
-    err = None
-    obs_exc = [None]
-    try:
-        a.run(print_result=False)
-    except Exception as e:  # noqa: BLE001
-        err = type(e).__name__
-        ev(["raised", err])
-        rec.exc = traceback.format_exc()
-        obs_exc[0] = rec.exc
-    obs = {"make": made, "events": rec.events, "err": err, "exc": obs_exc[0], "left": left}
-    obs["actions"] = [[x.comment, cl.sec(x.timestamp), [m.market_info for m in ms].index(x.market)] for x in a.actions]
-    if err is None:
-        df = a.account_status_df
-        obs["df_index"] = [cl.sec(t) for t in df.index]
-        obs["df_price"] = [cl.price_src(v) for v in df[("price", "USDC")]]
-        obs["status_ts"] = [cl.sec(s.timestamp) for s in a.account_status]
-    if err is None and case.get("rerun") and not resampled(case["istr"]):
-        # the same Actuator and the same strategy object run again on the same data (a run that resamples its frames in place cannot be repeated on
-        # the same Actuator; an un-resampled one can): the trace of the second run must be the trace of the first
-        # (the strategy installs its triggers from initialize() by extending self.triggers in place, on every run)
-        first = list(rec.events)
+    import os
+    import shutil
+    import tempfile
+
+    def go(script):
+        """one Actuator.run() with the given script; what it did and what it left behind"""
+        load(script)
         rec.events = []
         rec.initialized = False
         left.clear()
+        dyn.clear()
+        err, exc, saved = None, None, []
+        # the handler of a RuntimeError that leaves the bar loop writes result files into the working directory
+        tmp = tempfile.mkdtemp(prefix="c05-") if has_boom(script) else None
+        cwd = os.getcwd()
         try:
-            a.run(print_result=False)
-            obs["rerun"] = None if rec.events == first else next(([i, x, y] for i, (x, y) in enumerate(zip(rec.events + [None] * len(first), first + [None] * len(rec.events)))
-                                                                  if x != y), "length")
+            if tmp:
+                os.chdir(tmp)
+            with contextlib.redirect_stdout(io.StringIO()):      # the handler prints the timestamp of the failing bar
+                a.run(print_result=False)
         except Exception as e:  # noqa: BLE001
-            obs["rerun"] = ["raised", type(e).__name__, str(e)[:100]]
-        rec.events = first
+            err = type(e).__name__
+            rec.ev(["raised", err])
+            exc = traceback.format_exc()
+        finally:
+            if tmp:
+                os.chdir(cwd)
+                saved = sorted(os.listdir(tmp))
+                shutil.rmtree(tmp, ignore_errors=True)
+        o = {"events": rec.events, "err": err, "exc": exc, "left": list(left), "saved": saved,
+             "actions": [[x.comment, cl.sec(x.timestamp), [m.market_info for m in ms].index(x.market)] for x in a.actions],
+             "status_ts": [cl.sec(s.timestamp) for s in a.account_status],
+             "installed_after": len(a.strategy.triggers)}
+        if err is None:
+            df = a.account_status_df
+            o["df_index"] = [cl.sec(t) for t in df.index]
+            o["df_price"] = [cl.price_src(v) for v in df[("price", "USDC")]]
+        return o
+
+    obs = go(sc)
+    obs["make"] = made
+    if case.get("rerun") and not resampled(case["istr"]) and (obs["err"] is None or has_boom(sc)):
+        # the same Actuator and the same strategy object run again on the same data (a run that resamples its frames in place cannot be repeated on
+        # the same Actuator; an un-resampled one can): the trace of the second run must be the trace of the first — or, after a run that a hook
+        # ended with an exception, the trace of a fresh run of the strategy without the raise
+        # (the strategy installs its triggers from initialize() by extending self.triggers in place, on every run)
+        first = obs["events"]
+        second = go(strip_booms(sc))
+        obs["second"] = second
+        if obs["err"] is None:
+            ev2 = second["events"]
+            obs["rerun"] = None if ev2 == first and second["err"] is None else (
+                ["raised", second["err"], (second["exc"] or "")[-100:]] if second["err"] is not None else
+                next(([i, x, y] for i, (x, y) in enumerate(zip(ev2 + [None] * len(first), first + [None] * len(ev2))) if x != y), "length"))
     return obs
+
+
+def has_boom(script):
+    return any(st and st[0] == "boom" for body in bodies(script) for st in body)
+
+
+def bodies(script):
+    yield script["init"]
+    for key in ("before", "on", "after"):
+        for _, o in script[key]:
+            yield o
+    for key in ("fire", "open"):
+        for _, _, o in script[key]:
+            yield o
+    for _, _, o in script.get("notify", []):
+        yield o
+
+
+def strip_booms(script):
+    def f(body):
+        return [st for st in body if st[0] != "boom"]
+    out = dict(script)
+    out["init"] = f(script["init"])
+    for key in ("before", "on", "after"):
+        out[key] = [[r, f(o)] for r, o in script[key]]
+    for key in ("fire", "open", "notify"):
+        out[key] = [[r, i, f(o)] for r, i, o in script.get(key, [])]
+    return out
 
 
 # ------------------------------------------------------------------------------------------ the property, stated on the observed trace
@@ -428,12 +652,73 @@ def oracle(ctx, case, obs, rep):
                                              f"{str(obs['rerun'])[:300]}")
 
 
-def model_request(case):
+def recorded_of(ev):
+    out = []
+    for e in ev:
+        if e[0] == "ok" or (e[0] == "free" and e[5]):
+            out.append([e[4], e[1], e[3]])
+        elif e[0] == "uact":
+            out.append([e[3], e[1], e[2]])
+    return out
+
+
+RUNTIME = {"HookRuntimeError", "DemeterError"}
+
+
+def oracle_failed(ctx, case, obs, nf, rep):
+    """a run that a hook ended with an exception, against the run of the same strategy without the raise (`nf`, a fresh Actuator): the calls made
+    are a prefix of that run's calls, what is left in the account history and the action list is what was recorded up to there, nothing after"""
+    V = lambda key, what: ctx.violate(key, what, rep)  # noqa: E731
+    ev, nev = obs["events"], nf["events"]
+    booms = {st[1] for body in bodies(case["script"]) for st in body if st[0] == "boom"}
+    if ev[-1][0] != "raised":
+        V("Actuator.run:raise-not-last", "calls were made after the exception")
+        return
+    made = ev[:-1]
+    if made != nev[:len(made)]:
+        k = next((i for i, (x, y) in enumerate(zip(made, nev)) if x != y), min(len(made), len(nev)))
+        V("Actuator.run:failed-run-not-a-prefix", f"the run that ended in {obs['err']} made the call {made[k] if k < len(made) else None} where the same strategy "
+          f"without the raise makes {nev[k] if k < len(nev) else None} (call {k})")
+        return
+    rows = [e[1] for e in made if e[0] == "row"]
+    if obs["err"] not in booms:
+        masked = obs["err"] == "IndexError" and not rows and (booms & RUNTIME)
+        if masked:
+            # the `except RuntimeError` handler of the loop builds the account frame of a run that has no row yet: pandas' IndexError replaces the
+            # hook's exception (chained to it).  Not a clause of C05; counted.
+            ctx.count("runtime_error_on_first_bar_leaves_as_IndexError")
+        else:
+            V(f"Actuator.run:hook-exception-replaced:{obs['err']}", f"a hook raised one of {sorted(booms)}, run() raised {obs['err']}: {(obs['exc'] or '')[-300:]}")
+    if obs["status_ts"] != rows or rows != nf["status_ts"][:len(rows)]:
+        V("Actuator.account_status:after-raise", f"account history after the failed run {obs['status_ts'][-3:]} (rows appended {rows[-3:]}); the run without the raise has "
+          f"{nf['status_ts'][:len(rows) + 1][-3:]} there")
+    rec_ = recorded_of(made)
+    if obs["actions"] != rec_ or rec_ != nf["actions"][:len(rec_)]:
+        V("Actuator.actions:after-raise", "the action list after the failed run is not what was recorded before the raise / not a prefix of the full run's list")
+    notified = [[e[2], e[3], e[4]] for e in made if e[0] == "notify"]
+    if notified != rec_[:len(notified)]:
+        V("Actuator.notify:after-raise", "deliveries before the raise are not a prefix of the recorded actions")
+    if obs["installed_after"] != 0:
+        V("Actuator.run:trigger-list-not-handed-back-after-raise", f"strategy.triggers holds {obs['installed_after']} triggers after the failed run, none before it")
+    # the handler of a RuntimeError leaving the bar loop saves what there is (two files) before re-raising; nothing else writes files
+    if bool(obs["saved"]) != (obs["err"] in RUNTIME and bool(rows)):
+        ctx.count("saved_files_unexpected")
+    sec_ = obs.get("second")
+    if sec_ is not None and (sec_["events"] != nev or sec_["err"] != nf["err"] or sec_["actions"] != nf["actions"] or sec_["status_ts"] != nf["status_ts"]):
+        k = next((i for i, (x, y) in enumerate(zip(sec_["events"], nev)) if x != y), min(len(sec_["events"]), len(nev)))
+        V("Actuator.run:run-after-failed-run-differs", f"the same Actuator and strategy run again after the failed run (now without the raise): call {k} is "
+          f"{sec_['events'][k] if k < len(sec_['events']) else None}, a fresh Actuator makes {nev[k] if k < len(nev) else None}; outcome {sec_['err']} / {nf['err']}")
+
+
+def model_request(case, obs=None):
     def ints(l):
         return [str(x) for x in l]
     specs = [{k: ([[str(a), str(b)] for a, b in v] if k == "rs" else [str(x) for x in v] if isinstance(v, list)
                   else str(v) if isinstance(v, int) and not isinstance(v, bool) else v) for k, v in sp.items()} for sp in case["specs"]]
-    return {"fn": "run", "markets": [{"idx": ints([t for t in m["times"] for _ in range(m.get("rows", 1))]), "open": m["open"], "sparse": bool(m.get("sparse", False))} for m in case["markets"]],
+    extra = {}
+    if obs is not None and "second" in obs:
+        extra["then"] = strip_booms(case["script"])
+    return {**extra, "fn": "run_g", "markets": [{"idx": ints([t for t in m["times"] for _ in range(m.get("rows", 1))]), "open": m["open"], "sparse": bool(m.get("sparse", False))} for m in case["markets"]],
             "prices": ints(case["prices"]),
             "delta": str(60 * case["interval"]), "resample": resampled(case["istr"]), "specs": specs, "script": case["script"]}
 
@@ -444,21 +729,43 @@ def check_case(ctx: Ctx, case, reqs=None):
     nm = len(case["markets"])
     kinds = "+".join(sorted(m["kind"] + ("~sparse" if m.get("sparse") else "") for m in case["markets"]))
     ev = obs["events"]
+    boom = has_boom(case["script"])
+    dynamic = any(st[0] in ("tadd", "tdel") for body in bodies(case["script"]) for st in body)
     if obs["err"] is None:
         oracle(ctx, case, obs, rep)
+    elif boom:
+        nf = run_impl(dict(case, script=strip_booms(case["script"]), rerun=False))
+        if nf["err"] == obs["err"] and nf["events"] == obs["events"]:
+            boom = False          # the run ends by itself (price frame, malformed trigger) before any scripted raise is reached
+        else:
+            oracle_failed(ctx, case, obs, nf, rep)
     phases = sorted({e[2].split(":")[0] for e in ev if e[0] in ("ok", "rej", "free")})
     tag = (f"i{case['interval']}{'' if resampled(case['istr']) else 'raw'}:{kinds}:bars{min(3, sum(1 for e in ev if e[0] == 'before').bit_length() // 3)}:"
            f"{'/'.join(phases) or 'noops'}:{'set2' if any(e[0] == 'set' and e[3] == 2 for e in ev) else '-'}:"
            f"{'closed' if any(e[0] == 'rej' and e[5] for e in ev) else '-'}:{'free' if any(e[0] == 'free' for e in ev) else '-'}:{'uact' if any(e[0] == 'uact' for e in ev) else '-'}:"
-           f"{'fire' if any(e[0] == 'fire' for e in ev) else '-'}:{obs['err'] or 'ok'}")
+           f"{'fire' if any(e[0] == 'fire' for e in ev) else '-'}:{obs['err'] or 'ok'}" +
+           (f":raise@{raise_site(ev)}" if boom and obs["err"] else ":raise-not-reached" if boom else "") + (":dyn" if dynamic else "") +
+           (":again" if "second" in obs else ""))
     ctx.case(tag, {"interval": case["istr"], "markets": [(m["kind"], len(m["times"])) for m in case["markets"]], "events": len(ev), "err": obs["err"]})
     if obs["err"] is not None:
         expected = {"DemeterError", "KeyError", "ValueError", "IndexError"}
-        if obs["err"] not in expected:
+        if obs["err"] not in expected and not boom:
             ctx.violate(f"Actuator.run:{obs['err']}", f"run raised {obs['err']}: {(obs.get('exc') or '')[-300:]}", rep)
     if reqs is not None:
-        reqs.append((rep, obs, model_request(case)))
+        reqs.append((rep, obs, model_request(case, obs)))
     return obs
+
+
+def raise_site(ev):
+    """in which hook the run ended (from the last calls before the raise): bucket tag"""
+    for e in reversed(ev[:-1]):
+        if e[0] in ("ok", "rej", "free"):
+            return e[2].split(":")[0]
+        if e[0] in ("before", "on", "after", "fire", "open", "notify", "initialize"):
+            return e[0]
+        if e[0] in ("set", "update", "uact", "row"):
+            return "?"
+    return "?"
 
 
 def compare(ctx, rep, obs, ans):
@@ -476,13 +783,22 @@ def compare(ctx, rep, obs, ans):
         k = next((i for i, (x, y) in enumerate(zip(mt, it)) if x != y), min(len(mt), len(it)))
         ctx.disagree(f"call traces differ at event {k}: impl {it[k - 1:k + 2]} model {mt[k - 1:k + 2]} (lengths {len(it)}/{len(mt)})", rep)
         return
+    if ans["actions"] != obs["actions"]:
+        ctx.disagree(f"action lists differ (outcome {obs['err']})", rep)
+    if [r[0] for r in ans["rows"]] != obs["status_ts"] or [r[1] for r in ans["rows"]] != [e[2] for e in it if e[0] == "row"]:
+        ctx.disagree(f"account rows differ (outcome {obs['err']})", rep)
     if obs["err"] is None:
-        if ans["actions"] != obs["actions"]:
-            ctx.disagree("action lists differ", rep)
         if [r[0] for r in ans["rows"]] != obs["df_index"] or [r[1] for r in ans["rows"]] != obs["df_price"]:
             ctx.disagree("account rows differ", rep)
         if ans["left"] != obs["left"]:
             ctx.disagree(f"triggers left: impl {obs['left']} model {ans['left']}", rep)
+    if ("second" in obs) != ("second" in ans):
+        ctx.disagree(f"second run: impl {'ran' if 'second' in obs else 'did not run'}, model {'ran' if 'second' in ans else 'did not run'}", rep)
+    elif "second" in obs:
+        o2, a2 = obs["second"], ans["second"]
+        if a2["err"] != o2["err"] or a2["trace"] != o2["events"] or a2["actions"] != o2["actions"] or [r[0] for r in a2["rows"]] != o2["status_ts"]:
+            k = next((i for i, (x, y) in enumerate(zip(a2["trace"], o2["events"])) if x != y), min(len(a2["trace"]), len(o2["events"])))
+            ctx.disagree(f"second run of the same Actuator (first ended {obs['err']}): impl {o2['events'][k - 1:k + 2]} / {o2['err']}, model {a2['trace'][k - 1:k + 2]} / {a2['err']}", rep)
 
 
 def real_market_resample(ctx: Ctx):
@@ -556,6 +872,42 @@ def fixed_cases():
                 "script": dict(empty, on=[[2, [[0, True, "t1", True]]], [5, [[1, True, "t4", False]]]], upd=[[3, 1, ["u1"]]],
                                notify=[[2, "t1", [[1, True, "t2", True], [0, False, "t2x", True]]], [2, "t2", [[0, True, "t3", False]]],
                                        [5, "t4", [[0, True, "t5", True]]], [3, "u1", [[1, True, "t6", True]]]])})
+    # a hook raises: every hook, on the first bar / in the middle / on the last bar, every class; afterwards the same Actuator runs again
+    import copy
+    whole = {"k": "range", "kw": "{}", "s": short[0], "e": short[-1] + 60}
+    for where in ("init", "before", "fire", "open", "on", "after", "notify"):
+        for k, cls, pos in ((2, "HookError", 1), (0, "DemeterError", 0), (5, "HookRuntimeError", 1), (0, "HookError", 1), (3, "DemeterError", 1)):
+            ms = [{"kind": "minutely", "times": short, "open": True}, {"kind": "minutely", "times": short, "open": False}]
+            sc = copy.deepcopy(empty)
+            sc["init"] = [[0, True, "i0", True]]
+            for r in range(6):
+                sc["before"].append([r, [[1, True, f"b{r}", False]]])
+                sc["on"].append([r, [[0, True, f"o{r}", True]]])
+                sc["after"].append([r, [[1, True, f"a{r}", True]]])
+                sc["fire"].append([r, 0, [[0, True, f"f{r}", True]]])
+                sc["open"].append([r, 0, [[1, True, f"c{r}", True]]])
+                sc["notify"].append([r, f"o{r}", [[1, True, f"n{r}", False]]])
+            body = (sc["init"] if where == "init" else
+                    next(e for e in sc[where] if e[0] == k)[-1])
+            body.insert(pos, ["boom", cls])
+            out.append({"interval": 1, "istr": "1min", "markets": ms, "prices": short, "specs": [whole], "script": sc, "rerun": True})
+    # hooks change strategy.triggers: a trigger's action removes the trigger itself (the next one is passed over on that bar), installs a new
+    # trigger (evaluated in the same loop), removes an earlier one (again the next one is passed over), removes the next one; on_bar and
+    # after_bar install and remove between two loops; a raise in the action of a trigger installed by another action
+    for variant in range(3):
+        ms = [{"kind": "minutely", "times": short, "open": False}]
+        sc = copy.deepcopy(empty)
+        sc["tfuel"] = 50
+        new = {"k": "period", "kw": "{\"a\":1}", "d": 60, "imm": True, "pend": 0, "id": 3}
+        sc["fire"] = [[1, 0, [["tdel", 0], [0, True, "x1", True]]],
+                      [2, 1, [["tadd", new], [0, True, "x2", True]]],
+                      [2, 3, [[0, True, "x3", True]] + ([["boom", "HookError"]] if variant == 2 else [])],
+                      [3, 2, [["tdel", 1]]],
+                      [4, 3, [["tdel", 3], ["tadd", dict(whole, id=4)]]]]
+        sc["on"] = [[3, [["tadd", dict(whole, id=5)]]], [4, [["tdel", 5]]]]
+        sc["after"] = [[0, [["tdel", 2], ["tadd", {"k": "atTime", "kw": "{}", "s": short[2], "id": 6}]]]] if variant == 1 else []
+        out.append({"interval": 1, "istr": "1min", "markets": ms, "prices": short, "specs": [whole, dict(whole), dict(whole)], "script": sc,
+                    "rerun": True})
     return out
 
 
